@@ -390,7 +390,11 @@ func (c distrCfg) classes(mainAddr string) (k1, k2, k3, k4, k5 bool) {
 }
 
 // ---------------------------------------------------------------- interning / terms ---------
-func (e *distrEnv) intern(c distrCfg) {
+func (e *distrEnv) intern(cs ...distrCfg) {
+	c := distrCfg{}
+	for _, x := range cs { // the union: ranks of ids, state keys and names are shared by all configurations of a case
+		c.subs = append(c.subs, x.subs...)
+	}
 	app := e.ta.App
 	e.idTab = map[string]int{"": 0}
 	e.keyTab = map[string]int{}
@@ -441,12 +445,158 @@ func (e *distrEnv) intern(c distrCfg) {
 			e.addrTab = append(e.addrTab, ad)
 		}
 	})
-	for i, s := range c.subs {
-		e.sdNm[s.name] = i + 1
+	for _, s := range c.subs {
+		if _, ok := e.sdNm[s.name]; !ok {
+			e.sdNm[s.name] = len(e.sdNm) + 1
+		}
 		for _, sh := range s.shares {
-			e.shareNm[sh.name] = len(e.shareNm) + 1
+			if _, ok := e.shareNm[sh.name]; !ok {
+				e.shareNm[sh.name] = len(e.shareNm) + 1
+			}
 		}
 	}
+}
+
+func (c distrCfg) clone() distrCfg {
+	var o distrCfg
+	for _, s := range c.subs {
+		n := dSub{name: s.name, primary: s.primary, burn: s.burn}
+		n.sources = append(n.sources, s.sources...)
+		n.shares = append(n.shares, s.shares...)
+		o.subs = append(o.subs, n)
+	}
+	return o
+}
+
+// mapAccounts rewrites every account of the configuration in place.
+func (c *distrCfg) mapAccounts(f func(a dAcc) dAcc) {
+	for i := range c.subs {
+		for j := range c.subs[i].sources {
+			c.subs[i].sources[j] = f(c.subs[i].sources[j])
+		}
+		c.subs[i].primary = f(c.subs[i].primary)
+		for j := range c.subs[i].shares {
+			c.subs[i].shares[j].dest = f(c.subs[i].shares[j].dest)
+		}
+	}
+}
+
+// genUpdate derives the configuration a governance update installs mid-history from the one in force: the same graph with an
+// internal account's id re-typed to a module or base account (cfg itself is changed so that the id is one both types accept),
+// a freshly generated configuration, or the same configuration with other share and burn fractions.
+func (e *distrEnv) genUpdate(cfg *distrCfg, mainAddr string) (upd *distrCfg, retyped bool) {
+	rng := e.rng
+	okClass := func(c distrCfg) bool {
+		k1, k2, k3, k4, _ := c.classes(mainAddr)
+		return !k1 && !k2 && !k3 && !k4 && c.params().Validate() == nil
+	}
+	switch []int{0, 0, 0, 0, 0, 1, 1, 2, 2, 2}[rng.Intn(10)] {
+	case 0:
+		used := map[string]bool{}
+		var internals []string
+		probe := cfg.clone()
+		probe.mapAccounts(func(a dAcc) dAcc {
+			used[a.id] = true
+			if a.typ == distrtypes.InternalAccount {
+				internals = append(internals, a.id)
+			}
+			return a
+		})
+		if len(internals) == 0 {
+			break
+		}
+		old := internals[rng.Intn(len(internals))]
+		type cand struct{ id, typ string }
+		var cands []cand
+		for _, m := range distrModules {
+			if !used[m] {
+				cands = append(cands, cand{m, distrtypes.ModuleAccount})
+			}
+		}
+		for _, b := range e.baseAdr {
+			if !used[b.String()] {
+				cands = append(cands, cand{b.String(), distrtypes.BaseAccount})
+			}
+		}
+		if len(cands) == 0 {
+			break
+		}
+		nw := cands[rng.Intn(len(cands))]
+		if cands[0].typ == distrtypes.ModuleAccount && rng.Chance(70) {
+			nw = cands[0] // (the state key of a module account sorts after the stale internal one, that of a base account before it)
+		}
+		renamed := cfg.clone()
+		renamed.mapAccounts(func(a dAcc) dAcc {
+			if a.typ == distrtypes.InternalAccount && a.id == old {
+				a.id = nw.id
+			}
+			return a
+		})
+		next := renamed.clone()
+		next.mapAccounts(func(a dAcc) dAcc {
+			if a.typ == distrtypes.InternalAccount && a.id == nw.id {
+				a.typ = nw.typ
+			}
+			return a
+		})
+		// in half of the cases the re-typed account stops being a source as well: what it is paid stays on a real account
+		if rng.Chance(65) {
+			final := distrCfg{}
+			for _, s := range next.subs {
+				n := dSub{name: s.name, primary: s.primary, burn: s.burn, shares: s.shares}
+				for _, src := range s.sources {
+					if !(src.typ == nw.typ && src.id == nw.id) {
+						n.sources = append(n.sources, src)
+					}
+				}
+				if len(n.sources) > 0 {
+					final.subs = append(final.subs, n)
+				}
+			}
+			if okClass(renamed) && okClass(final) {
+				*cfg = renamed
+				e.rep.Count("update.retype_internal_to_final_" + nw.typ)
+			if os.Getenv("VERIF_DEBUG") != "" {
+				fmt.Fprintf(os.Stderr, "retype-final: %s -> %s %s\n", old, nw.typ, nw.id)
+			}
+				return &final, true
+			}
+		}
+		if okClass(renamed) && okClass(next) {
+			*cfg = renamed
+			e.rep.Count("update.retype_internal_to_" + nw.typ)
+			return &next, true
+		}
+	case 1:
+		for tries := 0; tries < 40; tries++ {
+			c := e.genDistrCfg(0)
+			if okClass(c) {
+				e.rep.Count("update.fresh_configuration")
+				return &c, false
+			}
+		}
+	}
+	next := cfg.clone()
+	for i := range next.subs {
+		tot := sdk.ZeroDec()
+		for j := range next.subs[i].shares {
+			sh := shareDec(rng)
+			if tot.Add(sh).GTE(sdk.NewDecWithPrec(95, 2)) {
+				sh = sdk.ZeroDec()
+			}
+			tot = tot.Add(sh)
+			next.subs[i].shares[j].share = sh
+		}
+		next.subs[i].burn = sdk.ZeroDec()
+		if b := shareDec(rng); rng.Chance(50) && tot.Add(b).LT(sdk.NewDecWithPrec(98, 2)) {
+			next.subs[i].burn = b
+		}
+	}
+	if okClass(next) {
+		e.rep.Count("update.shares_changed")
+		return &next, false
+	}
+	return nil, false
 }
 
 func (e *distrEnv) accTerm(a dAcc) string {
@@ -696,7 +846,8 @@ func runDistrCase(ta *TestApp, seed uint64, idx int, rep *Report, profile string
 	e.addrTab = []sdk.AccAddress{mainAddr}
 
 	kclass := 0
-	if profile != "clean" && rng.Chance(14) {
+	updMode := profile == "updates"
+	if profile != "clean" && !updMode && rng.Chance(14) {
 		kclass = 1 + rng.Intn(4)
 	}
 	var cfg distrCfg
@@ -733,8 +884,19 @@ func runDistrCase(ta *TestApp, seed uint64, idx int, rep *Report, profile string
 		evCls = ".K5"
 	}
 	rep.Count("class" + cls)
+	// a governance update of the whole configuration somewhere in the history (profile updates)
+	var cfg2 *distrCfg
+	retyped := false
+	if updMode && cls == "" {
+		cfg2, retyped = e.genUpdate(&cfg, mainAddr.String())
+		params = cfg.params()
+	}
 	rep.Count(fmt.Sprintf("subs.%d", len(cfg.subs)))
-	e.intern(cfg)
+	if cfg2 != nil {
+		e.intern(cfg, *cfg2)
+	} else {
+		e.intern(cfg)
+	}
 
 	// keeper over the same store with the wrapped bank
 	fb := &faultBank{inner: app.BankKeeper}
@@ -829,6 +991,13 @@ func runDistrCase(ta *TestApp, seed uint64, idx int, rep *Report, profile string
 		rep.Count("faults_mode.payouts_and_burns_only")
 	}
 	nBlocks := 2 + rng.Intn(10)
+	updAt := -1
+	if cfg2 != nil {
+		if nBlocks < 5 {
+			nBlocks = 5
+		}
+		updAt = 1 + rng.Intn(nBlocks-3) // at least one block before the update and two after it
+	}
 	amountMax := 3 + rng.Intn(24)
 	randCoins := func() sdk.Coins {
 		cs := sdk.NewCoins()
@@ -914,7 +1083,19 @@ func runDistrCase(ta *TestApp, seed uint64, idx int, rep *Report, profile string
 			ext[i] = startBal[i]
 		}
 		lastMain := sdk.NewCoins()
+		cur := cfg
+		updated := false
+		prevRem := map[string]sdk.DecCoins{}
 		for bIdx, pb := range plan {
+			if bIdx == updAt {
+				if err := k.SetParams(rctx, cfg2.params()); err != nil {
+					panic(err)
+				}
+				cur, updated = *cfg2, true
+				if record {
+					res.opTerms = append(res.opTerms, fmt.Sprintf("(DSetSubs %s, [])", e.cfgTerm(cur)))
+				}
+			}
 			for _, in := range pb.inflows {
 				fundAddr(rctx, ta, e.addrTab[in.addr], in.coins)
 				totalIn = totalIn.Add(in.coins...)
@@ -990,10 +1171,12 @@ func runDistrCase(ta *TestApp, seed uint64, idx int, rep *Report, profile string
 				ext[i] = sdk.NewCoins()
 				return r
 			}
-			oracle.block(arr, sweep)
+			if !updated {
+				oracle.block(arr, sweep)
+			}
 			lastMain = app.BankKeeper.GetAllBalances(rctx, mainAddr)
 			if record {
-				evObs, perSd, evOk := e.parseEvents(bctx.EventManager().Events(), denoms, cfg)
+				evObs, perSd, evOk := e.parseEvents(bctx.EventManager().Events(), denoms, cur)
 				fl := make([]string, len(fb.seen))
 				for i, f := range fb.seen {
 					fl[i] = zBool(f)
@@ -1015,6 +1198,40 @@ func runDistrCase(ta *TestApp, seed uint64, idx int, rep *Report, profile string
 					fmt.Sprintf("held %s + burned %s != arrived %s", have, burned, totalIn))
 				// ---- C18: a sub-distributor's events add up to its inflow (exact oracle)
 				rep.Eval("C18.events_parse", evOk, idx, bIdx, "typed event could not be parsed")
+				{ // ---- C04: a block credits only accounts of the configuration in force: the leftovers recorded for anybody else do not grow
+					inCfg := map[string]bool{distrtypes.BurnStateKey: true}
+					cc := cur.clone()
+					cc.mapAccounts(func(a dAcc) dAcc { inCfg[a.key()] = true; return a })
+					okOnly, detail := true, ""
+					nowRem := map[string]sdk.DecCoins{}
+					for _, st := range k.GetAllStates(rctx) {
+						key := st.GetStateKey()
+						nowRem[key] = st.Remains
+						if inCfg[key] {
+							continue
+						}
+						for _, dc := range st.Remains {
+							if dc.Amount.GT(prevRem[key].AmountOf(dc.Denom)) {
+								okOnly = false
+								detail = fmt.Sprintf("state %s is not an account of the configuration in force and its leftover grew from %s to %s %s",
+									key, prevRem[key].AmountOf(dc.Denom), dc.Amount, dc.Denom)
+							}
+						}
+					}
+					prevRem = nowRem
+					nm := "C04.only_configured_accounts_are_credited"
+					if retyped && updated {
+						nm += ".K14"
+					}
+					if cls == "" { // (the known-finding shapes K1-K4 are judged by the exact-share predicate below)
+						rep.Eval(nm, okOnly, idx, bIdx, detail)
+					}
+				}
+				if updated {
+					// the exact-share oracle follows one configuration; after an update the books, the registered invariants and the
+					// step-by-step comparison with the model (which takes the update too) are what is checked
+					continue
+				}
 				if !fb.sweepFailed {
 					for _, s := range cfg.subs {
 						in := oracle.inflowSd[s.name]
@@ -1115,7 +1332,9 @@ func runDistrCase(ta *TestApp, seed uint64, idx int, rep *Report, profile string
 		return res
 	}
 	main := execute(faultsMode, true)
-	if cls != "" || fb.sweepFailed || main.panicked {
+	if cls != "" || fb.sweepFailed || main.panicked || retyped {
+		// (a re-typed id keeps being credited under its old state: the accounts of the two configurations share an id, which the
+		// refinement theorem's account universe excludes)
 		rep.LedgerExempt = append(rep.LedgerExempt, idx)
 	}
 	if faultsMode && cyclic {
